@@ -15,6 +15,9 @@ structure FieldT where
 def FieldT.Ok (N : Nat) (f : FieldT) : Prop :=
   f.k ≠ [] ∧ AllOk f.k ∧ AllOk f.v ∧ (rawOf f.k).length < N
 
+instance (N : Nat) (f : FieldT) : Decidable (f.Ok N) := by
+  unfold FieldT.Ok AllOk; exact inferInstance
+
 /-- `k1=v1&k2=v2&…` -/
 def encF : List FieldT → Bytes
   | [] => []
